@@ -29,16 +29,19 @@ Open Scope Z_scope.
 
 (* ------------------------------------------------------------------ state *)
 
-Record wstate := mkW { bal : N -> Z; sto : N -> N -> N }.
+(* vals: the validator list (ValidatorState), world state like everything else *)
+Record wstate := mkW { bal : N -> Z; sto : N -> N -> N; vals : list N }.
 
 Definition upd {A} (f : N -> A) (a : N) (v : A) : N -> A :=
   fun x => if N.eqb x a then v else f x.
 
 Definition set_bal (s : wstate) (a : N) (v : Z) : wstate :=
-  mkW (upd (bal s) a v) (sto s).
+  mkW (upd (bal s) a v) (sto s) (vals s).
 
 Definition set_sto (s : wstate) (a k v : N) : wstate :=
-  mkW (bal s) (upd (sto s) a (upd (sto s a) k v)).
+  mkW (bal s) (upd (sto s) a (upd (sto s a) k v)) (vals s).
+
+Definition set_vals (s : wstate) (l : list N) : wstate := mkW (bal s) (sto s) l.
 
 (* the only way a fee is taken: AccountState.SetBalance(bal - fee) *)
 Definition charge_fee (s : wstate) (payer : N) (fee : Z) : wstate :=
@@ -59,7 +62,9 @@ Inductive op :=
 | OEnter
 | OXfer (t : N) (amt : Z)
 | OExit (st : N)
-| OHang.                        (* the frame never answers: the call-context timer fires *)
+| OHang
+| OGrant (v : N)                (* ValidatorState.Add *)
+| ORevoke (v : N).              (* ValidatorState.Remove (the scripted contract keeps the last validator) *)                        (* the frame never answers: the call-context timer fires *)
 
 Inductive dtype := DNone | DMessage | DCall.
 
@@ -85,6 +90,16 @@ Record params := mkParams {
 
 Fixpoint memN (a : N) (l : list N) : bool :=
   match l with [] => false | x :: r => N.eqb a x || memN a r end.
+
+Fixpoint remove_first (a : N) (l : list N) : list N :=
+  match l with [] => [] | x :: r => if N.eqb a x then r else x :: remove_first a r end.
+
+(* ValidatorState.IndexOf: position in the list, -1 when absent *)
+Fixpoint index_of (a : N) (l : list N) : Z :=
+  match l with
+  | [] => -1
+  | x :: r => if N.eqb a x then 0 else let i := index_of a r in if i <? 0 then -1 else i + 1
+  end.
 
 (* Address.IsContract() of the address / AccountState.IsContract() of the account *)
 Definition contract_form (p : params) (a : N) : bool := N.eqb a (p_script p) || memN a (p_nocontract p).
@@ -233,6 +248,13 @@ Fixpoint run_gen (cl : frame -> list frame -> wstate) (p : params) (async : bool
              leave (f :: stk) (fst (fst r)) (snd (fst r)) (snd r)
     | OExit st => leave stk (clamp p (st mod 1000)%N) cur f
     | OHang => leave stk StTimeout cur f
+    | OGrant v =>
+        if contract_form p v || memN v (vals cur) then k cur f stk
+        else k (set_vals cur (vals cur ++ [v])) f stk
+    | ORevoke v =>
+        if memN v (vals cur) && (1 <? Z.of_nat (length (vals cur)))
+        then k (set_vals cur (remove_first v (vals cur))) f stk
+        else k cur f stk
     end
   end.
 
